@@ -14,7 +14,8 @@ def build():
     toml = open(os.path.join(HERE, 'replay', 'Cargo.toml.in')).read().replace('@REPO@', REPO)
     if not os.path.exists(os.path.join(crate, 'Cargo.toml')) or open(os.path.join(crate, 'Cargo.toml')).read() != toml:
         open(os.path.join(crate, 'Cargo.toml'), 'w').write(toml)
-    shutil.copy(os.path.join(HERE, 'replay', 'src', 'main.rs'), os.path.join(crate, 'src', 'main.rs'))
+    for f in os.listdir(os.path.join(HERE, 'replay', 'src')):
+        shutil.copy(os.path.join(HERE, 'replay', 'src', f), os.path.join(crate, 'src', f))
     for f in ('rust-toolchain', 'Cargo.lock'):
         src = os.path.join(REPO, f)
         if os.path.exists(src) and not (f == 'Cargo.lock' and os.path.exists(os.path.join(crate, f))):
@@ -28,16 +29,17 @@ def build():
     return os.path.join(CACHE, 'replay-target', 'debug', 'verif-replay')
 
 
-def run(args, timeout=1800):
+def run(args, timeout=3600, env=None):
     exe = build()
-    p = subprocess.run([exe] + args, capture_output=True, text=True, timeout=timeout)
+    p = subprocess.run([exe] + args, capture_output=True, text=True, timeout=timeout, env=dict(os.environ, RUST_BACKTRACE='0', **(env or {})))
     last = [l for l in p.stdout.strip().split('\n') if l.startswith('{')]
     return json.loads(last[-1]) if last else {'error': (p.stdout + p.stderr)[-800:]}
 
 
-def search(unit, ob=None, tier='quick'):
+def search(unit, ob=None, tier='quick', skip=None):
+    """skip: SQL fragments of known findings (known_findings.json `native_skip`): still run, reported under known_failures"""
     t0 = time.time()
-    r = run(['search', unit, '2' if tier == 'thorough' else '1'])
+    r = run(['search', unit, '2' if tier == 'thorough' else '1'], env={'VERIF_NATIVE_SKIP': json.dumps(skip or [])})
     r['unit'] = unit
     r['wall_s'] = round(time.time() - t0, 1)
     r['how'] = 'bounded native enumeration on the real functions through risinglight::storage::verif_hooks (labelled bounded; a replay aid, never counted as proof)'
